@@ -7,16 +7,22 @@
 
    (1) self-describing formats (YAML/JSON): load (save x) = norm x            for every wf schema
    (2) norm is idempotent
-   (3) saving and reloading the loaded object returns exactly the loaded object
+   (3) saving and reloading the loaded object returns exactly the loaded object (whatever the
+       `Default` impls are); the loaded object is well typed if the defaults of the caches are
    (4) positional format (bincode): load (save x) = norm x  ⇔  no `skip_serializing_if` predicate
        holds anywhere inside x
    (5) … hence a value with a hit field does NOT survive bincode (DESIGN §8 #1 in general form)
    (6) the regenerated table of the crate satisfies the schema obligations, so (1) and (4) hold
        of every (non-generic) serializable type of the crate
    (7) the default `FuelConverter` does not survive the positional round trip
+   (8) behaviour: resetting a lazily rebuilt `skip` cache (what a load does) does not change what
+       the next step computes — on the powertrain model that the `pt` block ties to the real
+       `Generator` / `ElectricDrivetrain` (`pwr_in_frac_interp`)
+   (0) the scanner understood the source (`scanOk`), else nothing below means anything
 -/
 import Proofs.Lemmas.SerdeL
 import Generated.SerdeSchema
+import Altrios.Powertrain
 
 namespace Altrios.Proofs.C17
 open Altrios.Serde Altrios.Proofs.SerdeL
@@ -142,19 +148,25 @@ def C17_second_roundtrip_identity_statement : Prop :=
   ∀ (D : Defaults) (t : Ty) (v : Val),
     wf t = true →          -- FORCED as in (1)
     fits t v = true →      -- FORCED as in (1)
-    -- the `Default` of every `skip` cache is a value of the cache's type.  This is what makes the
-    -- loaded object `norm D t v` well typed (`C17_loaded_fits`, forced there:
-    -- `C17_loaded_fits_needs_skipFit`); the round-trip EQUATION itself does not look at `skip`
-    -- fields, see the remark at `C17_loaded_fits`.
-    skipFit D t = true →
     decSelf D t (encSelf D t (norm D t v)) = some (norm D t v)
+    -- NO hypothesis on the `Default` impls is needed: the loaded object `norm D t v` may be ill typed
+    -- inside its `skip` fields (when `skipFit D t` fails, see `C17_loaded_fits`), but the codec never
+    -- reads or writes those, and (1) holds for the `skip`-blind typing `fitsW`, which `norm`
+    -- preserves unconditionally (`SerdeL.selfRTW`, `SerdeL.fitsW_norm`).
 
-theorem C17_second_roundtrip_identity : C17_second_roundtrip_identity_statement := by
-  intro D t v hw hf hs
+theorem C17_second_roundtrip_identity : C17_second_roundtrip_identity_statement :=
+  fun D t v hw hf => selfRT_second D t v hw (fits_fitsW t v hf)
+
+/-- the variant asked for originally (with the now superfluous `skipFit`), by the direct route
+    (1) at `norm v` + (2) + `C17_loaded_fits` -/
+theorem C17_second_roundtrip_identity_skipFit (D : Defaults) (t : Ty) (v : Val)
+    (hw : wf t = true) (hf : fits t v = true) (hs : skipFit D t = true) :
+    decSelf D t (encSelf D t (norm D t v)) = some (norm D t v) := by
   have h := selfRT D t (norm D t v) hw (fits_norm D t v hs hf)
   rwa [norm_idem] at h
 
-/-- the object the first load returns is well typed -/
+/-- the object the first load returns is well typed (for the model's full typing predicate)
+    provided the `Default` of every `skip` cache is a value of the cache's type -/
 def C17_loaded_fits_statement : Prop :=
   ∀ (D : Defaults) (t : Ty) (v : Val),
     skipFit D t = true →   -- FORCED (`C17_loaded_fits_needs_skipFit`)
@@ -175,7 +187,16 @@ example : wf exTy = true ∧ fits exTy exVal = true ∧ skipFit canonD exTy = tr
 example : decSelf canonD exTy (encSelf canonD exTy (norm canonD exTy exVal))
     = some (norm canonD exTy exVal) :=
   C17_second_roundtrip_identity canonD exTy exVal (by decide +kernel) (by decide +kernel)
-    (by decide +kernel)
+
+/-- … also with an ill-typed default of a `skip` cache (`skipFit` fails, the equation holds) -/
+example :
+    let D : Defaults := ⟨fun _ => .unit, fun _ => .unit⟩
+    let t : Ty := .struct "S" (.cons (fa "c" (skip := true)) (.atom "x")
+      (.cons (fa "y") (.atom "x") .nil))
+    let v : Val := .tuple [.atom "1", .atom "2"]
+    skipFit D t = false ∧ decSelf D t (encSelf D t (norm D t v)) = some (norm D t v) :=
+  ⟨by decide +kernel,
+   C17_second_roundtrip_identity _ _ _ (by decide +kernel) (by decide +kernel)⟩
 
 /-! ## (4) positional round trip ⇔ no hit -/
 
@@ -285,7 +306,7 @@ theorem C17_table_skips_rebuilt : skipsRebuilt Generated.table = true := by
   exact h.1
 
 /-- non-vacuity: the table has roots, `FuelConverter` among them -/
-example : "FuelConverter" ∈ roots Generated.table ∧ 50 ≤ (roots Generated.table).length := by
+example : "FuelConverter" ∈ roots Generated.table ∧ 10 ≤ (roots Generated.table).length := by
   decide +kernel
 
 /-! ## (7) the default `FuelConverter` does not survive bincode -/
@@ -311,5 +332,101 @@ theorem C17_bincode_default_counterexample : C17_bincode_default_counterexample_
   | some t =>
     simp only [hr, Bool.and_eq_true, Bool.not_eq_true'] at h
     exact ⟨t, hr, h.1.1, h.1.2, C17_positional_hit_fails canonD t (canon t) h.2 h.1.1 h.1.2⟩
+
+/-! ## (0) the regenerated table is a real scan, not the stub written when the scanner gives up -/
+
+theorem C17_scan_ok : Altrios.Serde.Generated.scanOk = true := by decide
+
+/-! ## (8) a reset cache is rebuilt before its first use, with the same content
+
+`Generator.pwr_in_frac_interp` / `ElectricDrivetrain.pwr_in_frac_interp` are `#[serde(skip)]`:
+a load returns them empty (`norm`).  The code fills them lazily
+(`if self.pwr_in_frac_interp.is_empty() { self.set_pwr_in_frac_interp()? }`), modelled by
+`PT.ensureInFrac`.  The theorems below say that the step functions that read the cache return the
+SAME result (same state, same error, and the same re-populated cache) for the reloaded object as for
+the original one, provided the original's cache was coherent with the maps it is computed from. -/
+
+section
+open Altrios.PT
+variable {α : Type} [Add α] [Sub α] [Mul α] [Div α] [Neg α] [LT α] [LE α]
+  [DecidableLT α] [DecidableLE α] [OfNat α 0] [OfNat α 1]
+
+omit [Add α] [Sub α] [Mul α] [Neg α] [LE α] [DecidableLE α] [OfNat α 0] [OfNat α 1] in
+theorem ensureInFrac_cold (frac eta : List α)
+    (hm : strictlyIncreasing (inFrac frac eta) = true) :
+    ensureInFrac ([] : List α) frac eta = ensureInFrac (inFrac frac eta) frac eta := by
+  unfold ensureInFrac
+  simp [hm]
+
+/-- the cache of `g` is what `set_pwr_in_frac_interp` computes from the serialized maps, and it
+    passed that function's monotonicity check -/
+def GenCacheCoherent (g : Gen α) : Prop :=
+  g.inFracInterp = inFrac g.fracInterp g.etaInterp ∧
+  -- FORCED: `set_pwr_in_frac_interp` assigns the cache BEFORE it rejects a non-monotone one, so an
+  -- object can carry a populated non-monotone cache; the original then goes on interpolating in
+  -- it while the reloaded copy fails with "must be monotonically increasing" on first use
+  -- (`C17_cache_needs_monotone`).
+  strictlyIncreasing (inFrac g.fracInterp g.etaInterp) = true
+
+def EdrvCacheCoherent (e : Edrv α) : Prop :=
+  e.inFracInterp = inFrac e.fracInterp e.etaInterp ∧
+  strictlyIncreasing (inFrac e.fracInterp e.etaInterp) = true
+
+def C17_cache_rebuild_gen_statement : Prop :=
+  ∀ {α : Type} [Add α] [Sub α] [Mul α] [Div α] [Neg α] [LT α] [LE α]
+    [DecidableLT α] [DecidableLE α] [OfNat α 0] [OfNat α 1] (g : Gen α) (pwrInMax aux : α),
+    GenCacheCoherent g →
+    genSetCurMax { g with inFracInterp := [] } pwrInMax aux = genSetCurMax g pwrInMax aux
+
+theorem C17_cache_rebuild_gen : C17_cache_rebuild_gen_statement := by
+  intro α _ _ _ _ _ _ _ _ _ _ _ g p aux h
+  unfold genSetCurMax
+  simp only [h.1, ensureInFrac_cold _ _ h.2]
+
+def C17_cache_rebuild_edrv_statement : Prop :=
+  ∀ {α : Type} [Add α] [Sub α] [Mul α] [Div α] [Neg α] [LT α] [LE α]
+    [DecidableLT α] [DecidableLE α] [OfNat α 0] [OfNat α 1] (e : Edrv α) (p : α),
+    EdrvCacheCoherent e →
+    edrvSetCurMax { e with inFracInterp := [] } p = edrvSetCurMax e p ∧
+    edrvSetRegenMax { e with inFracInterp := [] } p = edrvSetRegenMax e p
+
+theorem C17_cache_rebuild_edrv : C17_cache_rebuild_edrv_statement := by
+  intro α _ _ _ _ _ _ _ _ _ _ _ e p h
+  constructor
+  · unfold edrvSetCurMax
+    simp only [h.1, ensureInFrac_cold _ _ h.2]
+  · unfold edrvSetRegenMax
+    simp only [h.1, ensureInFrac_cold _ _ h.2]
+
+end
+
+section
+open Altrios.PT
+
+/-- a generator with a two-point map (over `Rat`): the hypotheses of (8) hold and the statement is
+    about a step that succeeds -/
+def exGen : Gen Rat :=
+  { state := ⟨0, 0, 0, 0, 0, 0, 0, 0, 0, 0, 0, 0⟩, pwrOutMax := 1000,
+    fracInterp := [0, 1], etaInterp := [1/2, 4/5], inFracInterp := [0, 5/4] }
+
+example : GenCacheCoherent exGen := by
+  constructor <;> decide +kernel
+
+example : (genSetCurMax { exGen with inFracInterp := [] } 500 10).isOk = true ∧
+    genSetCurMax { exGen with inFracInterp := [] } 500 10 = genSetCurMax exGen 500 10 :=
+  ⟨by decide +kernel, C17_cache_rebuild_gen exGen 500 10 (by constructor <;> decide +kernel)⟩
+
+/-- the monotonicity hypothesis is forced: with a populated but non-monotone cache the original
+    proceeds (here: succeeds) while the reloaded copy, whose cache is empty, fails when it
+    rebuilds it -/
+theorem C17_cache_needs_monotone :
+    let g : Gen Rat := { exGen with fracInterp := [0, 1/2, 1], etaInterp := [1/2, 1/2, 2],
+                                    inFracInterp := [0, 1, 1/2] }
+    g.inFracInterp = inFrac g.fracInterp g.etaInterp ∧
+    (genSetCurMax g 10 1).isOk = true ∧
+    (genSetCurMax { g with inFracInterp := [] } 10 1).isOk = false := by
+  decide +kernel
+
+end
 
 end Altrios.Proofs.C17
